@@ -202,7 +202,10 @@ func randWireOp(a *aspec.ASpec, k int, rng *rand.Rand) wireOp {
 			it := scalarSchema(typ, rng)
 			s = aspec.Schema{K: "array", Items: &it}
 		}
-		params = append(params, aspec.Param{In: "query", Name: n, Req: req, Schema: s})
+		// parameter attributes that do not change what must arrive (defaults spelled out, allowReserved - which only
+		// permits reserved characters to travel unencoded -, deprecated, allowEmptyValue), rotating over the operations
+		attrs := []map[string]any{nil, {"allowReserved": true}, {"style": "form", "explode": true}, nil, {"deprecated": true}, {"allowReserved": true, "explode": true}, {"allowEmptyValue": true}}[(k+len(params))%7]
+		params = append(params, aspec.Param{In: "query", Name: n, Req: req, Schema: s, Attrs: attrs})
 		ds = append(ds, decl{In: "query", Name: n, Type: typ, Array: arr, Req: req})
 	}
 	hnames := []string{"X-Request-Id", "x-trace", "If-Version"}
@@ -210,7 +213,8 @@ func randWireOp(a *aspec.ASpec, k int, rng *rand.Rand) wireOp {
 	for _, n := range hnames[:rng.Intn(3)] {
 		typ := wireTypes[rng.Intn(len(wireTypes))]
 		req := rng.Intn(2) == 0
-		params = append(params, aspec.Param{In: "header", Name: n, Req: req, Schema: scalarSchema(typ, rng)})
+		hattrs := []map[string]any{nil, {"style": "simple"}, nil, {"style": "simple", "explode": false}, {"deprecated": true}}[(k+len(params))%5]
+		params = append(params, aspec.Param{In: "header", Name: n, Req: req, Schema: scalarSchema(typ, rng), Attrs: hattrs})
 		ds = append(ds, decl{In: "header", Name: n, Type: typ, Req: req})
 	}
 	// methods and the ways of declaring a request body are stratified over the operation index, so that every
